@@ -366,7 +366,8 @@ impl<'tcx> Dumper<'tcx> {
         use rustc_ast::LitKind::*;
         let v = match &l.node {
             Str(sym, _) => J::Obj(vec![("str", s(sym.as_str()))]),
-            ByteStr(..) | CStr(..) => J::Obj(vec![("bytes", s("?"))]),
+            ByteStr(b, _) => J::Obj(vec![("bytes", s(b.as_byte_str().iter().map(|x| format!("{:02x}", x)).collect::<String>()))]),
+            CStr(..) => J::Obj(vec![("bytes", s("?"))]),
             Byte(b) => J::Obj(vec![("int", s(format!("{}", b)))]),
             Char(c) => J::Obj(vec![("char", s(c.to_string()))]),
             Int(i, _) => J::Obj(vec![("int", s(format!("{}{}", if negated { "-" } else { "" }, i.get())))]),
